@@ -25,7 +25,7 @@
 (* why (rename window, stale task write) or says "unexplained".  TLC checks*)
 (* that within the bound nothing unexplained ever happens.                 *)
 (***************************************************************************)
-EXTENDS Naturals, FiniteSets, Sequences, TLC
+EXTENDS ServerShapes, TLC
 
 CONSTANTS Principals,      \* e.g. {"A", "B"}
           Accounts,        \* account names, e.g. {"alice", "carol"}
